@@ -255,6 +255,18 @@ def fixed_scenarios(prop):
                             "config": {"strict": True, "facade": facade, "fmt": fmt,
                                        "short_reads": 3, "buffering": 2},
                             "data": body.encode().hex()})
+        # fixed probes for the msdparser escaping gaps (known findings): texts that load
+        # to a value / key the dependency cannot write back
+        for name, body in (("hash-after-linebreak", "#TITLE:a\n\\#b;\n"),
+                           ("triple-slash-value", "#TITLE:a\\/\\/\\/b;\n"),
+                           ("hash-in-key", "#T:x;\n#\n\\#B:x;\n"),
+                           ("triple-slash-key", "#A\\/\\/\\/B:x;\n"),
+                           ("hash-across-components", "#A\n:\\#x;\n"),
+                           ("hash-after-blank-key", "#T:x;\n#:\\#x;\n")):
+            out.append({"workload": "load", "property": "C04", "fixed": "kf:" + name, "guard": False,
+                        "config": {"strict": True, "facade": "simfs", "fmt": "sm",
+                                   "short_reads": None, "buffering": None},
+                        "data": body.encode().hex()})
     return out
 
 
